@@ -14,6 +14,7 @@ func checkC19(p *Prog, c *Check) {
 	c.RuleText("GUARD(path fact sets at the append) + phi-edge classification (pointer recovery) + SIBLING(linear forms) + ORDER + DET + SQL")
 	c.Trusted("pgx rows", "sort.Slice", "go/ssa")
 	c19Identities(p, c)
+	sorterRule(p, c, "C19-R2.sorter", "keyperimpl/gnosis.sortIdentityPreimages")
 	c19TxPointer(p, c)
 	c19Advance(p, c)
 	c19Trigger(p, c)
